@@ -437,6 +437,9 @@ class WordLockRules(LockModel):
     def spec_check(self, spec, fn, p, e, bind=None, tag=''):
         """evaluate one write row against its role specification; emits obligations"""
         L = self.layout
+        if not hasattr(self, 'rows'):
+            self.rows = []
+        self.rows.append((spec, fn, p, e, bind))
         key = '%s %s(%s)%s' % (short(fn['name']), e['op'], self.word, tag)
         loc = loc_of(e)
         r = RowEval(self.ev, p, e, bind)
@@ -514,8 +517,9 @@ class WordLockRules(LockModel):
                 definite = [t for k, t in problems if k in ('adm', 'eff')]
                 sev = 2 if (definite and not und) else 1
                 txt = '%s; certified word %s, written %s' % ('; '.join(t for _, t in problems), fmt_cell(pre), fmt_cell(post))
-                if worst is None or sev > worst[0]:
-                    worst = (sev, txt, und)
+                only_enc = all(k == 'eff' and not t.startswith('rest') for k, t in problems)
+                if worst is None or sev > worst[0] or (sev == worst[0] and worst[3] and not only_enc):
+                    worst = (sev, txt, und, only_enc)
         if n == 0:
             self.sink.unsup(rule_adm, key, loc, 'no feasible abstract state for this path (path condition contradictory?)')
             return
@@ -526,7 +530,7 @@ class WordLockRules(LockModel):
         if worst is None:
             self.sink.ok(rule_adm, key + ' ' + spec, loc, '%s — holds on all %d feasible cells' % (what, n))
         elif worst[0] == 2:
-            self.sink.bad(rule_adm, key + ' ' + spec, loc, '%s — refuted: %s' % (what, worst[1]), {'cells': n})
+            self.sink.bad(rule_adm, key + ' ' + spec, loc, '%s — refuted: %s' % (what, worst[1]), {'cells': n, 'kind': 'encoding' if worst[3] else 'admission'})
         else:
             self.sink.unsup(rule_adm, key + ' ' + spec, loc, '%s — not decidable: %s (undecided conditions: %s)'
                             % (what, worst[1], '; '.join(show(c) for c in worst[2][:3])))
@@ -579,6 +583,117 @@ class WordLockRules(LockModel):
             getattr(self, 'role_' + role[0])(fn, role[1], paths, res)
         self.who_may_call()
         self.check_spins()
+        self.closure_check()
+
+    # ---- closure of the extracted transition system over (abstract word, ghost grant multiset)
+    def closure_check(self):
+        """C01.CLOSURE: machine-checks the induction of DESIGN.md 3.0 for this class, independently of how the
+        word encodes the holders.  States are pairs (lock-mode bits of the word: X bit, SIX bit, S counter 0..3;
+        ghost holders: X 0/1, SIX 0/1, S 0..3).  From (all-zero word, no holders) every extracted write whose
+        role is enabled by the ghost state (a release needs a holder of its mode, a conversion its source grant)
+        and whose certified value can be the current word is applied with its evaluated effect.  Checked on every
+        reachable state: no two conflicting grants coexist; when the last holder is gone the word is the initial
+        word again (a fresh exclusive request is admitted).  Bounded at three simultaneous shared holders; the
+        per-row obligations cover larger counts symbolically."""
+        rows = getattr(self, 'rows', [])
+        self.closure_ok = None
+        if not rows:
+            self.sink.unsup('C01.CLOSURE', self.cls, '', 'no transition rows extracted')
+            return
+        fld = next(f for f in self.rec['fields'] if f['name'] == self.word)
+        init = fld.get('init') or {}
+        txt = repr(init)
+        zero_init = "'v': '0'" in txt or init.get('k') == 'zeroinit' or (init.get('k') == 'initlist' and not init.get('items'))
+        self.sink.emit('C01.CLOSURE', 'ok' if zero_init else 'violated', '%s lock word starts as the all-zero word' % self.cls, '%s:%s' % (self.rec['file'], fld['line']), '')
+        assume = {'UPG': None, 'DOWN': None, 'REL:S': None, 'REL:SIX': None, 'REL:X': None}
+        trans = {}
+        undecided = []
+        self.ev.s_cells = ((0, 0), (1, 1), (2, 2), (3, 3), (4, 4))
+        try:
+            for spec, fn, p, e, bind in rows:
+                r = RowEval(self.ev, p, e, bind)
+                if not r.supported:
+                    continue
+                key = (spec.replace(':FREE', ''), short(fn['name']), e['line'])
+                try:
+                    for pre, post, env, und in r.combos(None):
+                        if pre.s[0] > 3:
+                            continue
+                        prek = (pre.x, pre.six, pre.s[0])
+                        if und or not isinstance(post, W) or post.x is None or post.six is None or post.s is None or post.s[0] != post.s[1]:
+                            trans.setdefault(key, set()).add((prek, None))     # only a problem if this state is reached
+                            continue
+                        if post.s[0] > 4:
+                            continue
+                        trans.setdefault(key, set()).add((prek, (post.x, post.six, post.s[0])))
+                except OverflowError:
+                    undecided.append(key)
+        finally:
+            del self.ev.s_cells
+        delta = {'ADM:S': (0, 0, 1), 'ADM:SIX': (0, 1, 0), 'ADM:X': (1, 0, 0), 'REL:S': (0, 0, -1), 'REL:SIX': (0, -1, 0), 'REL:X': (-1, 0, 0),
+                 'UPG': (1, -1, 0), 'DOWN': (-1, 1, 0)}
+        seen, todo, bad = set(), [((0, 0, 0), (0, 0, 0))], []
+        steps = 0
+        MAXS = 3
+        while todo:
+            st = todo.pop()
+            if st in seen:
+                continue
+            seen.add(st)
+            word, g = st
+            for key, pairs in trans.items():
+                d = delta.get(key[0])
+                if d is None:
+                    continue
+                if (d[0] < 0 and g[0] == 0) or (d[1] < 0 and g[1] == 0) or (d[2] < 0 and g[2] == 0):
+                    continue
+                if d[2] > 0 and g[2] >= MAXS:
+                    continue          # bound on simultaneous shared holders
+                for pre, post in pairs:
+                    if pre != word:
+                        continue
+                    steps += 1
+                    if post is None:
+                        undecided.append((key, word, g))
+                        continue
+                    ng = (g[0] + d[0], g[1] + d[1], g[2] + d[2])
+                    if ng[0] > 1 or ng[1] > 1 or (ng[0] == 1 and (ng[1] >= 1 or ng[2] >= 1)):
+                        bad.append('%s (line %s) is admitted on lock bits X=%d SIX=%d S=%d while the holders are X=%d SIX=%d S=%d: conflicting grants coexist'
+                                   % (key[1], key[2], pre[0], pre[1], pre[2], g[0], g[1], g[2]))
+                        continue
+                    if post[2] > MAXS + 0 and False:
+                        continue
+                    if ng == (0, 0, 0) and post != (0, 0, 0):
+                        bad.append('%s (line %s): the last holder is gone but the lock bits are X=%d SIX=%d S=%d: a fresh exclusive request is never admitted'
+                                   % (key[1], key[2], post[0], post[1], post[2]))
+                        continue
+                    nst = (post, ng)
+                    if nst not in seen:
+                        todo.append(nst)
+        ghosts = {g for _, g in seen}
+        key = '%s no conflicting grants in any reachable state; the word is free again when the last holder leaves' % self.cls
+        if bad:
+            self.closure_ok = False
+            self.sink.bad('C01.CLOSURE', key, self.rec['file'], bad[0], {'all': bad[:10]})
+        elif undecided:
+            self.sink.unsup('C01.CLOSURE', key, self.rec['file'], 'a reachable transition is not evaluable: %s' % (undecided[:3],))
+        else:
+            legal = {(0, 0, k) for k in range(MAXS + 1)} | {(0, 1, k) for k in range(MAXS + 1)} | {(1, 0, 0)}
+            miss = legal - ghosts
+            if miss:
+                self.sink.unsup('C01.CLOSURE', key, self.rec['file'], 'holder states never reached (rows missing?): %s' % sorted(miss))
+            else:
+                self.closure_ok = True
+                self.sink.ok('C01.CLOSURE', key, self.rec['file'], '%d reachable (word, holders) states, %d holder states (all %d legal ones), %d transitions applied, %d extracted rows'
+                             % (len(seen), len(ghosts), len(legal), steps, len(trans)))
+        # arbitration: a row that deviates from the canonical encoding (say, an exclusive holder's word keeps the SIX
+        # bit) is not a violation if the closure over the real effects holds
+        if self.closure_ok:
+            for it in self.sink.items:
+                if it['status'] == 'violated' and it['rule'] in ('C01.ADM', 'C01.REL', 'C10.UPG', 'C10.DOWN', 'C13.LOCKEXIT') and it.get('data', {}) and \
+                        it['data'].get('kind') == 'encoding':
+                    it['status'] = 'ok'
+                    it['detail'] = 'non-canonical encoding of the holders, but the closure over the evaluated effects holds (C01.CLOSURE): ' + it['detail']
 
     # ---- helper: rows + return classification
     def rows_of(self, fn, p):
